@@ -313,6 +313,8 @@ class Contract:
         self.assumed = d.get('assumed', False)       # contract is not verified (external / out of reach)
         self.use_opaque = d.get('use_opaque', True)   # False: @opaque specification functions are interpreted transparently for this contract
         self.bounds = d.get('bounds', {})
+        self.no_history = d.get('no_history', False)   # native evaluation: no earlier call on the same receiver (the receiver's shape is part of the parameter type)
+        self.local_models = d.get('local_models')      # callable(reg): assumed models switched on for THIS contract only (listed as assumptions)
         self.native_skip = d.get('native_skip', False)   # no native evaluation (objects cannot be rebuilt natively)
         self.native_only = d.get('native_only', False)   # no VCs: only native contract evaluation (bounded stand-in)
         self.bounded = d.get('bounded')              # text: the contract only covers a stated bounded shape (stand-in, not a proof)
